@@ -183,6 +183,13 @@ func inventory(rel string, pi *pkgInfo) []ndSite {
 					if !ok {
 						break
 					}
+					// library calls whose result order is a map's iteration order
+					switch sel.Sel.Name {
+					case "AllPackages", "AllFunctions", "MapKeys", "MapRange":
+						if pi.info.Selections[sel] != nil {
+							add("unordered-api", enclosingStmt())
+						}
+					}
 					id, ok := sel.X.(*ast.Ident)
 					if !ok {
 						break
